@@ -49,7 +49,8 @@ func genPacket(r *gen.Rand) (p packet.Packet, pay []byte, hasPay bool) {
 		p[3] |= 0x30
 		L := r.Intn(183)
 		if r.Chance(4) {
-			L = r.PickInt([]int{0, 1, 2, 181, 182})
+			// 183 leaves a payload of zero bytes: the payload flag is set but nothing is contributed
+			L = r.PickInt([]int{0, 1, 2, 181, 182, 183, 183})
 		}
 		p[4] = byte(L)
 		if L > 0 {
@@ -127,6 +128,13 @@ func history(c *mon.Ctx, r *gen.Rand) {
 	var mbytes []byte
 	var mAll, mPay []packet.Packet
 	var hist []string
+	// lists returned earlier, with a snapshot of what they described when they were returned
+	type kept struct {
+		list []*packet.Packet
+		snap []packet.Packet
+		at   int
+	}
+	var retained []kept
 	events := map[string]bool{}
 	accepted := 0
 	fail := func(sig, detail string) {
@@ -234,6 +242,29 @@ func history(c *mon.Ctx, r *gen.Rand) {
 		if !samePackets(gp, mAll) && !samePackets(gp, mPay) {
 			fail("packets-differ-from-model", fmt.Sprintf("Packets() returned %d packets that are neither the %d packets taken since the last unit start nor the %d payload-carrying ones, in order", len(gp), len(mAll), len(mPay)))
 			return
+		}
+		// a list returned earlier must still describe the packets it described then
+		for _, k := range retained {
+			for j := range k.list {
+				if k.list[j] == nil || *k.list[j] != k.snap[j] {
+					fail("packets-returned-earlier-changed", fmt.Sprintf("the packet list returned after step %d was changed by a later call (element %d now differs): it is not an independent copy", k.at, j))
+					return
+				}
+			}
+		}
+		if len(gp) > 0 && r.Chance(3) {
+			keep := acc.Packets()
+			k := kept{list: keep, at: step}
+			for _, q := range keep {
+				if q == nil {
+					break
+				}
+				k.snap = append(k.snap, *q)
+			}
+			if len(k.snap) == len(keep) {
+				retained = append(retained, k)
+				events["retained_list"] = true
+			}
 		}
 		// mutating what was returned must not change the accumulator
 		if len(gb) > 0 {
